@@ -25,7 +25,7 @@ func TestMain(m *testing.M) {
 type Item struct {
 	Kind   string `json:"kind"`             // text | slot | call | if
 	Text   string `json:"text,omitempty"`   // marker
-	Callee string `json:"callee,omitempty"` // gen | once | oncefixed | flush | raw | join | fn | fnkids
+	Callee string `json:"callee,omitempty"` // gen | once | oncefixed | flush | raw | join | fn | fnkids | fnseq | fncapture | fnwithhold | fnplainflush
 	A      int    `json:"a,omitempty"`      // component / handle index
 	B      int    `json:"b,omitempty"`      // second component for join
 	// Arity of a join / fnseq call: 0 = the two components A, B; 1 = A alone; 3 = A, B, A; -1 = none.
@@ -40,7 +40,7 @@ type Tree struct {
 }
 
 var rec = ev.New("C13", "c13.calltree",
-	"generated call trees: a root template and up to 5 generated components whose bodies and child blocks are sequences of markers, children slots (0..2 per body), and calls - with or without a block, nested up to depth 4 - to generated components, once handles (block form and fixed-component form), templ.Flush, templ.Raw, templ.Join, a function component that ignores children, a hand-written one that renders templ.GetChildren, one that captures its children in a buffer of its own before writing them, a layer that withholds its block from the component it renders (templ.WithChildren(ctx, nil)), and a hand-written layer that renders two generated components with the context it received; "+
+	"generated call trees: a root template and up to 5 generated components whose bodies and child blocks are sequences of markers, children slots (0..2 per body), and calls - with or without a block, nested up to depth 4 - to generated components, once handles (block form and fixed-component form), templ.Flush, templ.Raw, templ.Join, a function component that ignores children, a hand-written one that renders templ.GetChildren, one that captures its children in a buffer of its own before writing them, a layer that withholds its block from the component it renders (templ.WithChildren(ctx, nil)), a layer that renders templ.Flush with its block into a writer without a Flush method, and a hand-written layer that renders two generated components with the context it received; "+
 		"every tree is generated with /repo's generator, compiled and rendered - once with Render, once served by templ.Handler in front of a children slot that gets no block, right after a request whose render was abandoned with a block still pending -; the marker sequence must equal the one computed by a reference interpreter of the statement (a callee gets exactly its call site's block, blocks are evaluated in the caller's scope, nothing leaks to siblings or descendants, nothing is rendered twice). "+
 		"Non-trivial = the tree has a no-block call inside some block, or a sibling after a call whose callee does not consume its block; distinct by tree")
 
@@ -112,7 +112,9 @@ func (in *interp) eval(items []Item, sc *scope) {
 					in.once[k] = true
 					in.sb.WriteString(fmt.Sprintf("<b>fixed%d</b>", it.A))
 				}
-			case "flush", "fnkids":
+			case "flush", "fnkids", "fnplainflush":
+				// fnplainflush: templ.Flush() rendered by a hand-written layer straight into a writer
+				// that has no Flush method - the block is rendered all the same, by nobody else
 				in.renderClosure(blk)
 			case "fncapture":
 				// renders its children into a buffer of its own and writes the result inside <u>
@@ -211,6 +213,8 @@ func (t Tree) source(prefix string) string {
 					expr = fmt.Sprintf("fnText(%q)", it.Text)
 				case "fnkids":
 					expr = "fnKids()"
+				case "fnplainflush":
+					expr = "fnPlain(templ.Flush())"
 				case "fncapture":
 					expr = "fnCapture()"
 				case "fnwithhold":
@@ -297,6 +301,14 @@ func fnSeq(cs ...templ.Component) templ.Component {
 			}
 		}
 		return nil
+	})
+}
+
+// fnPlain renders c, with the context (and so the block) the layer itself was given, into a writer
+// that offers nothing but Write: no Flush method, not templ's buffer.
+func fnPlain(c templ.Component) templ.Component {
+	return templ.ComponentFunc(func(ctx context.Context, w io.Writer) error {
+		return c.Render(ctx, struct{ io.Writer }{w})
 	})
 }
 
@@ -495,7 +507,7 @@ func (g genCtx) items(depth int, inBlock bool) []Item {
 			out = append(out, Item{Kind: "slot"})
 		default:
 			it := Item{Kind: "call"}
-			callees := []string{"gen", "gen", "gen", "once", "oncefixed", "flush", "raw", "fn", "fnkids", "join", "fnseq", "fncapture", "fnwithhold"}
+			callees := []string{"gen", "gen", "gen", "once", "oncefixed", "flush", "raw", "fn", "fnkids", "join", "fnseq", "fncapture", "fnwithhold", "fnplainflush"}
 			it.Callee = rapid.SampledFrom(callees).Draw(g.t, "callee")
 			lo := g.current + 1
 			if (it.Callee == "gen" || it.Callee == "join" || it.Callee == "fnseq" || it.Callee == "fnwithhold") && lo >= g.nComps {
